@@ -180,9 +180,17 @@ package manager
 //@   props C13 C12 C16
 //@   effect connObtained := connObtained + ite(res2 == nil, 1, 0)
 //@   requires m != nil && ctx != nil && m.connectionManager != nil
-//@   invariant 0: (forall k string :: !has($visited, k)) || err != nil
+//@   modifies ghost connGrants, ghost lastGrantRelease
+//@   invariant 0: ((forall k string :: !has($visited, k)) || err != nil) && connGrants == old(connGrants)
 //@   ensures [release-function-never-nil C16] res2 == nil ==> res1 != nil
+//@   ensures [a-connection-granted-by-the-connection-manager-is-handed-on-with-its-release-function C16]
+//@     connGrants - old(connGrants) == ite(res2 == nil, 1, 0) && (res2 == nil ==> res1 == lastGrantRelease)
+//@ ghost connGrants int
+//@ ghost lastGrantRelease ref
 //@ func iface ConnectionManager.Connection (ctx, addr, dialer)
+//@   effect connGrants := connGrants + ite(res2 == nil, 1, 0)
+//@   effect lastGrantRelease := ite(res2 == nil, res1, lastGrantRelease)
+//@   modifies ghost connGrants, ghost lastGrantRelease
 //@   ensures res1 != nil
 //@   note every ConnectionManager is assumed to return a non-nil release function (connection.Manager does: verified in package connection)
 
@@ -191,7 +199,7 @@ package manager
 //@ func (*Manager).monitor
 //@   props C13 C12 C16
 //@   requires Wired(m) && ta != nil && ctx != nil && !inSession[ta.name]
-//@   modifies ghost inSession, ghost connectsN, ghost resetsN, ghost sendTimerArmed, ghost armedTimers, ghost streamRecvs, ghost updatesN, ghost syncsN, ghost lastUpdateMsg, ghost connObtained, ghost connReleased
+//@   modifies ghost inSession, ghost connectsN, ghost resetsN, ghost sendTimerArmed, ghost armedTimers, ghost streamRecvs, ghost updatesN, ghost syncsN, ghost lastUpdateMsg, ghost connObtained, ghost connReleased, ghost connGrants, ghost lastGrantRelease
 //@   ensures [session-closed-on-return C13] !inSession[ta.name]
 //@   ensures [an-obtained-connection-is-released-exactly-once-on-every-path C16] connReleased - old(connReleased) == connObtained - old(connObtained)
 //@   ensures [other-targets-untouched C13] forall k string :: k != ta.name ==> inSession[k] == old(inSession[k])
@@ -218,7 +226,7 @@ package manager
 //@   props C13 C12
 //@   requires Wired(m) && ta != nil && ctx != nil && !inSession[ta.name]
 //@   requires ta.finished != nil && !closed(ta.finished) && !isctxdone(ta.finished)
-//@   modifies ghost inSession, ghost connectsN, ghost resetsN, ghost sendTimerArmed, ghost armedTimers, ghost streamRecvs, ghost updatesN, ghost syncsN, ghost lastUpdateMsg, closed(ta.finished), ghost boResets, ghost lastSince, ghost boMark, ghost meMark, ghost connObtained, ghost connReleased
+//@   modifies ghost inSession, ghost connectsN, ghost resetsN, ghost sendTimerArmed, ghost armedTimers, ghost streamRecvs, ghost updatesN, ghost syncsN, ghost lastUpdateMsg, closed(ta.finished), ghost boResets, ghost lastSince, ghost boMark, ghost meMark, ghost connObtained, ghost connReleased, ghost connGrants, ghost lastGrantRelease
 //@   invariant 0: [attempts-start-and-end-outside-a-session C13] !inSession[ta.name] && !closed(ta.finished) && sCtx != nil && timer != nil
 //@     && (forall k string :: k != ta.name ==> inSession[k] == old(inSession[k]))
 //@   invariant 0: [retries-never-give-up-and-back-off-as-configured C13] e != nil && e.MaxElapsedTime == 0 && e.InitialInterval == RetryBaseDelay && e.MaxInterval == RetryMaxDelay
